@@ -8,7 +8,7 @@ from vt.runner import where, AnalysisError
 from rules import common
 from rules.C07 import _key_is
 from rules.C11 import lexer_model
-from rules.C17 import shapes, dialect
+from rules.C17 import shapes, dialect, dialect_list
 
 EXPLANATION = (
     "Structural rules along the path of a SYNTAX/DEFVAL value: the number classifier t_NUMBER partitions the "
@@ -110,9 +110,8 @@ def r2_value_alternatives(chk):
                       'NUMBER64, NEGATIVENUMBER64, HEX_STRING, BIN_STRING; enumNumber = {NUMBER, NEGATIVENUMBER}; the '
                       'actions pass the token through; range/enumItem/NamedBit keep (first, second) order')
     need = set(['NUMBER', 'NEGATIVENUMBER', 'NUMBER64', 'NEGATIVENUMBER64', 'HEX_STRING', 'BIN_STRING'])
-    ship = shipped_dialects(model)
-    for dname in ('smiV2', 'smiV1', 'smiV1Relaxed'):
-        gs = shapes(model, ship[dname])
+    for dname, opts in dialect_list(chk):
+        gs = shapes(model, opts)
         by = gs.by_lhs
         for nt in ('value', 'valueofSimpleSyntax'):
             alts = set(p.rhs[0] for p in by.get(nt, []) if len(p.rhs) == 1)
